@@ -47,6 +47,8 @@ fn entity(h: &Hist) -> EntitySpec {
         faults: vec![],
         tail: vec![],
         segments: 0,
+        counting_hint: false,
+        unfused_errors: false,
     }
 }
 
